@@ -9,6 +9,7 @@ Steps, all in a scratch worktree under /tmp (removed afterwards):
   4. demo fails with the patch;  5. ./check <property> (quick tier) with VERIF_REPO=<worktree>.
 On success the change is stored as /verif/seeded/<seed_id>/ (patch.diff, demo, meta.json incl. what was run)."""
 import json
+import re
 import os
 import shutil
 import subprocess
@@ -20,7 +21,7 @@ ENV = dict(os.environ, GOFLAGS="-mod=mod", GOPROXY="off", GOSUMDB="off", GOTOOLC
 
 
 def run(cmd, **kw):
-    return subprocess.run(cmd, stdout=subprocess.PIPE, stderr=subprocess.STDOUT, text=True, **kw)
+    return subprocess.run(cmd, stdout=subprocess.PIPE, stderr=subprocess.STDOUT, text=True, errors="replace", **kw)
 
 
 def main():
@@ -44,7 +45,7 @@ def main():
             demo_dst = os.path.join(demo_dst, os.path.basename(meta["demo_file"]))
         os.makedirs(os.path.dirname(demo_dst), exist_ok=True)
         shutil.copy(demo_src, demo_dst)
-        cmd = meta["demo_cmd"].replace("/tmp/seed/R8" + prop, wt).replace("/tmp/seed/R7" + prop, wt).replace("/tmp/seed/R6" + prop, wt).replace("/tmp/seed/R5" + prop, wt).replace("/tmp/seed/R4" + prop, wt).replace("/tmp/seed/R3" + prop, wt).replace("/tmp/seed/R2" + prop, wt).replace("/tmp/seed/" + prop, wt)
+        cmd = re.sub(r"/tmp/seed/(R\d+)?" + prop + r"\b", wt, meta["demo_cmd"])
         r = run(["bash", "-c", cmd], cwd=wt, env=ENV)
         log.append("demo on unchanged tree: exit %d" % r.returncode)
         if r.returncode != 0:
